@@ -118,6 +118,9 @@ def install_hash_stubs(m, log=None):
     C['(*gitlab.com/yawning/tuplehash.Hasher).Read'] = th_read
 
 
+XOF_MAX_READS = {'n': 3}
+
+
 class TupleHashXOF:
     """TupleHashXOF128 stub: output stream = UF(customization, tuple of written strings, block counter)"""
 
@@ -126,6 +129,7 @@ class TupleHashXOF:
         self.tuple = []
         self.reads = 0
         self.log = log
+        self.max_reads = XOF_MAX_READS['n']      # stated bound: at most 3 candidate draws per signature (further draws are outside the bound)
 
     def go_has(self, mn):
         return mn in ('Write', 'Read')
@@ -140,6 +144,8 @@ class TupleHashXOF:
         if mn == 'Read':
             b = concretize_slice(m, args[0])
             n = b.len
+            if self.reads >= self.max_reads:
+                raise X.UnwindExceeded("more than %d draws from the XOF" % self.max_reads)
             # encode the tuple unambiguously: lengths are part of the UF name, contents its arguments
             shape = '_'.join(str(len(t)) for t in self.tuple)
             name = 'tuplehashxof128_c%d_t%s_blk%d_out%d' % (len(self.cust), shape, self.reads, n)
